@@ -51,7 +51,6 @@ vars    == <<items, total, arb, phase, avail, hd, off, sync, ks, midrw, got>>
 allvars == <<vars, last>>
 
 Min2(x, y) == IF x <= y THEN x ELSE y
-Max2(x, y) == IF x >= y THEN x ELSE y
 
 RECURSIVE StartOf(_, _)
 StartOf(its, i) == IF i <= 1 THEN 0 ELSE StartOf(its, i - 1) + its[i - 1].n    \* byte offset of item i
@@ -124,7 +123,7 @@ ReplyOpen(a) == [len |-> a.c, pan |-> 0]
 (*   lim >= 0: ReadLimitString(lim);  t = "raw": n bytes via ReadN ("n"),  *)
 (*   ZReadN ("z") or Read(p) ("p")                                         *)
 AtEnd  == hd > Len(items)
-HeadIt   == items[hd]
+HeadIt == items[hd]
 Left   == avail - off
 
 (* "the same sequence of typed reads": the read matches the item at the    *)
